@@ -126,6 +126,29 @@ Proof.
     repeat (apply Forall_cons; [first [exact I | split; [cbn; lia | auto]]|]); apply Forall_nil.
 Qed.
 
+(* the conclusion of C13_observers_exact_opt for the descriptor oD false, as a predicate of the world *)
+Definition opt_concl (w : kworld) : Prop :=
+  (u_state (u (Fsm.st _ _ _ w)) <> US_IDLE ->
+     exists p it, popped (hist _ _ _ w) = p ++ [it] /\ Lemmas_C13p.in_progress_opt sio smu unit w = Some it /\
+       u_cmd (u (Fsm.st _ _ _ w)) = Some (fst it) /\ u_type (u (Fsm.st _ _ _ w)) = snd it /\
+       (forall ci t, is_event_buffered (oD false) (Fsm.st _ _ _ w) ci t = ST_BUSY <->
+          ev_match ci t it = true \/
+          exists it', In it' (ring_items (oD false) (Fsm.st _ _ _ w)) /\ ev_match ci t it' = true) /\
+       get_processed (Fsm.st _ _ _ w) UNSOL = Z.of_nat (fst it)) /\
+  (u_state (u (Fsm.st _ _ _ w)) = US_IDLE ->
+     Lemmas_C13p.in_progress_opt sio smu unit w = None /\ u_cmd (u (Fsm.st _ _ _ w)) = None /\
+     (forall ci t, is_event_buffered (oD false) (Fsm.st _ _ _ w) ci t = ST_BUSY <->
+        exists it', In it' (ring_items (oD false) (Fsm.st _ _ _ w)) /\ ev_match ci t it' = true) /\
+     get_processed (Fsm.st _ _ _ w) UNSOL = (-1)%Z).
+
+(* the theorem instantiated on the scripted runs of Properties_C13o.v *)
+Example C13p_ex_instance : forall ops, Forall (valid_op (oD false)) ops -> opt_concl (oRun false (mkSmu [] []) ops).
+Proof.
+  intros ops Ho. destruct C13o_hyps as (Hc & Hv & _).
+  exact (C13_observers_exact_opt (oD false) sio smu unit s_read s_write s_lock s_unlock k_call
+           [] (mkSio [] [] []) (mkSmu [] []) tt ops Hc Hv Ho).
+Qed.
+
 (* C13_observers_exact_opt APPLIED, event machine busy: three triggers (the third refused) and one
    cat_service call -- (0, READ) is the last popped event and in progress, (1, TEST) is queued *)
 Example C13p_ex_busy :
@@ -137,21 +160,17 @@ Example C13p_ex_busy :
      ev_match ci t (0, T_READ) = true \/ exists it', In it' [(1, T_TEST)] /\ ev_match ci t it' = true) /\
   get_processed (Fsm.st _ _ _ w) UNSOL = 0%Z.
 Proof.
-  intro w.
+  pose proof (C13p_ex_instance ops1 (proj1 ops1_valid)) as H.
+  set (w := oRun false (mkSmu [] []) ops1) in *. cbv zeta.
   assert (Hn : u_state (u (Fsm.st _ _ _ w)) <> US_IDLE) by (vm_compute; discriminate).
   assert (Er : ring_items (oD false) (Fsm.st _ _ _ w) = [(1, T_TEST)]) by (vm_compute; reflexivity).
   assert (Ep : popped (hist _ _ _ w) = [(0, T_READ)]) by (vm_compute; reflexivity).
-  destruct C13o_hyps as (Hc & Hv & _).
-  pose proof (C13_observers_exact_opt (oD false) sio smu unit s_read s_write s_lock s_unlock k_call
-                [] (mkSio [] [] []) (mkSmu [] []) tt ops1 Hc Hv (proj1 ops1_valid)) as H.
-  cbv zeta in H. destruct H as [H _].
+  clearbody w. destruct H as [H _].
   destruct (H Hn) as (p & it & E1 & E2 & E3 & E4 & E5 & E6).
   assert (Eit : it = (0, T_READ)).
-  { change (popped (hist _ _ _ w) = p ++ [it]) in E1. rewrite Ep in E1.
-    destruct p as [|a [|b p]]; cbn in E1; [congruence | discriminate E1 | discriminate E1]. }
-  subst it. change (ring_items (oD false) (Fsm.st _ _ _ w)) with (ring_items (oD false) (Fsm.st _ _ _ w)) in E5.
-  split; [exact Ep|]. split; [exact E2|]. split; [exact E3|]. split; [exact E4|]. split; [|exact E6].
-  intros ci t. specialize (E5 ci t). fold w in E5. rewrite Er in E5. exact E5.
+  { rewrite Ep in E1. destruct p as [|a [|b p]]; cbn in E1; [congruence | discriminate E1 | discriminate E1]. }
+  subst it. rewrite Er in E5.
+  split; [exact Ep|]. split; [exact E2|]. split; [exact E3|]. split; [exact E4|]. split; [exact E5 | exact E6].
 Qed.
 
 (* ... and event machine idle: before any cat_service call both accepted events are queued, nothing is in
@@ -163,15 +182,12 @@ Example C13p_ex_idle :
      exists it', In it' [(0, T_READ); (1, T_TEST)] /\ ev_match ci t it' = true) /\
   get_processed (Fsm.st _ _ _ w) UNSOL = (-1)%Z.
 Proof.
-  intro w.
+  pose proof (C13p_ex_instance otrig (proj2 ops1_valid)) as H.
+  set (w := oRun false (mkSmu [] []) otrig) in *. cbv zeta.
   assert (Hi : u_state (u (Fsm.st _ _ _ w)) = US_IDLE) by (vm_compute; reflexivity).
   assert (Er : ring_items (oD false) (Fsm.st _ _ _ w) = [(0, T_READ); (1, T_TEST)]) by (vm_compute; reflexivity).
-  destruct C13o_hyps as (Hc & Hv & _).
-  pose proof (C13_observers_exact_opt (oD false) sio smu unit s_read s_write s_lock s_unlock k_call
-                [] (mkSio [] [] []) (mkSmu [] []) tt otrig Hc Hv (proj2 ops1_valid)) as H.
-  cbv zeta in H. destruct H as [_ H]. destruct (H Hi) as (E1 & E2 & E3 & E4).
-  split; [exact E1|]. split; [exact E2|]. split; [|exact E4].
-  intros ci t. specialize (E3 ci t). fold w in E3. rewrite Er in E3. exact E3.
+  clearbody w. destruct H as [_ H]. destruct (H Hi) as (E1 & E2 & E3 & E4). rewrite Er in E3.
+  split; [exact E1|]. split; [exact E2|]. split; [exact E3 | exact E4].
 Qed.
 
 (* ---- scripted mutex: four locks and four unlocks succeed, every later one FAILS ---- *)
